@@ -204,8 +204,7 @@ def run(tier, replay_file=None):
     A.EMB[0] = (2 ** 53, 1)
     try:
         he2 = [h for h in hs if sum(1 for x in h if x["op"] == "Create") >= 2]
-        if quick:
-            he2 = rng.sample(he2, min(len(he2), 1500))
+        he2 = rng.sample(he2, min(len(he2), 1500 if quick else 30000))      # (thorough: a bounded sample of the enumerated histories)
         for hist in he2 + h2[:20]:
             bad = abm_replay.replay(hist, TYPES, 100, 2, {"stats"}, max_ids=8)
             R.add("integer_embedding_histories")
